@@ -152,6 +152,24 @@ def register(cat, simple, binary, with_scalar, _perm, _dims_subset, gen_ttm, run
         op(kind + ".ttm_dims_operand", kind, gen_ttm_dims_operand, lambda eng, ops, st: ops[0].ttm(list(ops[1:-1]), ops[-1], transpose=st["transpose"]), weight=0.4)
     for kind in ("T", "S"):
         op(kind + ".collapse_dims_operand", kind, gen_collapse_dims_operand, lambda eng, ops, st: ops[0].collapse(ops[1]), weight=0.3)
+    # the list form of ttm with nothing selected (every mode excluded / an empty list of modes): whatever comes back
+    # (today: an exception) must not be the receiver itself
+    def gen_ttm_no_modes(c, r):
+        sh = c.obj(r).shape
+        kind = c.g.choice(["empty_dims", "all_excluded"])
+        if kind == "empty_dims":
+            return {"operands": [r], "kind": kind}
+        ids = [c.fresh(np.asfortranarray(rand_array(c.g, (c.g.randint(1, 3), s_)))) for s_ in sh]
+        return {"operands": [r] + ids, "kind": kind}
+
+    def run_ttm_no_modes(eng, ops, st):
+        if st["kind"] == "empty_dims":
+            return ops[0].ttm([], dims=np.array([], dtype=int))
+        return ops[0].ttm(list(ops[1:]), exclude_dims=np.arange(ops[0].ndims))
+
+    op("T.ttm_no_modes", "T", gen_ttm_no_modes, run_ttm_no_modes, weight=0.3)
+    op("S.ttm_no_modes", "S", gen_ttm_no_modes, run_ttm_no_modes, weight=0.3)
+
     op("S.ttm", "S", gen_ttm, lambda eng, ops, st: ops[0].ttm(ops[1], st["dim"], transpose=st["transpose"]), weight=0.8)
     op("S.mttkrp", "S", gen_mttkrp, run_mttkrp, weight=0.8)
     op("S.nvecs", "S", lambda c, r: (lambda sh, n: {"operands": [r], "n": n, "r": 1})(c.obj(r).shape, c.g.randrange(c.obj(r).ndims)), lambda eng, ops, st: ops[0].nvecs(st["n"], st["r"]), weight=0.2)
